@@ -233,3 +233,9 @@ def run(chk):
       "'number': '1'" in src and "'predicate_name': 'Combine'" in src
   chk.ob('C02-R4', ok, None, 'negation is IsNull(combine Min= 1 :- <negated>)',
          'the negation tree no longer has that shape', fi=nt)
+
+  chk.rule('C02-R5', 'SQLite aggregate UDFs behind ArgMin/ArgMax/Set/List: '
+           'arrival-order independence, heap discipline of the K-best '
+           'buffers, no truthiness on data values', min_instances=5)
+  from rules.c07 import aggregate_order
+  aggregate_order(chk, 'C02-R5')
